@@ -88,7 +88,11 @@ fn fieldset(fs: &Fieldset) -> (Vec<String>, Vec<bool>, &'static str, Vec<Option<
         Fieldset::Empty => (vec![], vec![], "empty", vec![]),
         Fieldset::Named(n) => (
             n.fields.iter().map(|f| ident_sym(&f.symbol)).collect(),
-            n.fields.iter().map(|f| f.is_used()).collect(),
+            // decided from the declaration itself (a name other than the bare `_`), not through kiki's own helper
+            n.fields
+                .iter()
+                .map(|f| matches!(f.name, IdentOrUnderscore::Ident(_)))
+                .collect(),
             "named",
             n.fields
                 .iter()
@@ -100,7 +104,10 @@ fn fieldset(fs: &Fieldset) -> (Vec<String>, Vec<bool>, &'static str, Vec<Option<
         ),
         Fieldset::Tuple(t) => (
             t.fields.iter().map(|f| ident_sym(f.symbol())).collect(),
-            t.fields.iter().map(TupleField::is_used).collect(),
+            t.fields
+                .iter()
+                .map(|f| matches!(f, TupleField::Used(_)))
+                .collect(),
             "tuple",
             t.fields.iter().map(|_| None).collect(),
         ),
